@@ -19,3 +19,10 @@ for prop in sys.argv[1:]:
         out.append("Print Assumptions %s." % name)
     open("/verif/tools/pins/%s.v" % prop, "w").write("\n".join(out) + "\n")
     print(prop, "pinned", len(out) // 2 - 1, "theorems")
+    # the pins file must type-check on its own (it imports only the first `From DV Require Import` sentence of the props file)
+    import subprocess
+    subprocess.run("cd /verif/coq && make props/%s.vo >/dev/null 2>&1" % prop, shell=True)
+    r = subprocess.run(["coqc", "-Q", "/verif/coq", "DV", "/verif/tools/pins/%s.v" % prop], cwd="/verif/coq", capture_output=True, text=True)
+    if r.returncode != 0:
+        print(prop, "PINS DO NOT TYPE-CHECK:", (r.stdout + r.stderr)[-600:])
+        sys.exit(1)
